@@ -2,6 +2,7 @@ package verifworld
 
 import (
 	"fmt"
+	"strings"
 
 	vs "metacontroller/pkg/internal/verifsim"
 )
@@ -166,9 +167,39 @@ func PropC07(c *vs.Case, f Factory, o RolloutOpts) error {
 // PropC08: a rolling update of healthy children always completes and cleans up.
 func PropC08(c *vs.Case, f Factory, o RolloutOpts) error {
 	scn := NewRolloutScn(c, o)
+	clusterParent := c.Prob(1, 10)
+	if clusterParent {
+		// the quantifier includes cluster-scoped parents
+		scn.Cfg.ParentResource = "cthings"
+		scn.Parent["kind"] = "CThing"
+		delete(scn.Parent["metadata"].(map[string]any), "namespace")
+		for i := range scn.Prog.Children {
+			scn.Prog.Children[i].Namespaces = []string{"ns1"}
+		}
+		c.Class("cluster-scoped-parent")
+	}
 	env, err := NewEnv(scn, f)
 	if err != nil {
 		return fmt.Errorf("harness: %v", err)
+	}
+	if clusterParent {
+		c.Describe(func() any { return map[string]any{"scenario": scn} })
+		var last *SyncTrace
+		for i := 0; i < 4; i++ {
+			env.MakeHealthy()
+			last = env.SyncFresh()
+			if last.Panic != "" {
+				return vs.Violf("C08/panic", "panic: %s", last.Panic)
+			}
+		}
+		c.NonTrivial()
+		if last.Err != nil && strings.Contains(last.Err.Error(), "ControllerRevision") {
+			return c.Known(withTrace(vs.Violf("C08/cluster-scoped-parent-cannot-roll", "a cluster-scoped parent with a rolling child strategy never gets anywhere: every sync fails with %v", last.Err), last).(*vs.Violation))
+		}
+		if last.Err != nil {
+			return withTrace(vs.Violf("C08/sync-error", "cluster-scoped rolling parent: sync fails: %v", last.Err), last)
+		}
+		return nil
 	}
 	env.OGStyle = c.Weighted(5, 1, 1, 1)
 	c.Class("observedGeneration-style-%d", env.OGStyle)
